@@ -113,6 +113,10 @@ def run(ctx):
                 tasks.append((dd, passes.seq('constant_propagation', 'common_subexp_elimination',
                                              'constant_propagation'), k, opts))
                 tasks.append((dd, 'optimize_copy', k, opts))
+        # the passes are handed the block through block= while an unrelated block is the working block
+        if d['name'] in ('counter', 'mixed_alu', 'const_fold', 'shared_subexp', 'mem_rw', 'regs_reset'):
+            for p in ('optimize_copy@foreign', 'constant_propagation@foreign', 'common_subexp_elimination@foreign'):
+                tasks.append((passcheck.design_with_pre(d, []), p, k, opts))
         # Outputs driven directly by logic nets (no 'w' net in front): folding / merging must keep them
         if d['name'] in ('const_fold', 'consts', 'shared_subexp', 'mixed_alu', 'binop', 'unop', 'repeat_args'):
             dd = passcheck.design_with_pre(d, ['direct_connect_outputs'])
